@@ -141,7 +141,19 @@ func cmdCheck(prop, tier string) int {
 		}
 		bseed := seed*1000003 + uint64(i)
 		bt0 := time.Now()
-		r, err := runBatch(b, prop, bt, tier, bseed, n, par, deadline)
+		// the time budget is shared: a batch may use an equal share of what is left (what it
+		// does not use rolls over to the batches after it), so every configuration gets runs
+		left := 0
+		for j := i; j < len(spec.Batches); j++ {
+			if (tier == "thorough" && spec.Batches[j].Thorough > 0) || (tier != "thorough" && spec.Batches[j].Quick > 0) {
+				left++
+			}
+		}
+		bdl := deadline
+		if rem := time.Until(deadline); left > 1 && rem > 0 {
+			bdl = time.Now().Add(rem / time.Duration(left))
+		}
+		r, err := runBatch(b, prop, bt, tier, bseed, n, par, bdl)
 		if err != nil {
 			fmt.Fprintln(os.Stderr, err)
 			return 2
